@@ -761,6 +761,14 @@ func LooksNumeric(s string) bool {
 	if _, err := strconv.ParseFloat(t, 64); err == nil {
 		return true
 	}
+	// a string containing a character that occurs in no numeral notation at all
+	// (decimal, exponent, hexadecimal, digit separators, inf / nan) is not a
+	// number however leniently it is read: "16cm", "9 apples", "12 টাকা"
+	for _, r := range strings.ToLower(t) {
+		if !strings.ContainsRune("0123456789+-.,_ \t'abcdefxponiyt", r) {
+			return false
+		}
+	}
 	// strings starting with a digit / sign+digit / dot+digit could be read
 	// leniently by some coercions; treat them as numeric-looking as well.
 	c := t[0]
